@@ -110,6 +110,15 @@ fn gen_form(rng: &mut Rng, literals_with_parens: bool, defined: &mut Vec<String>
         6 => (format!("(vector {} 'x \"s\")", rng.range(0, 9)), "expression"),
         7 => ((*rng.pick(&["(car 5)", "(undefined-thing)", "(vector-ref (vector 1) 9)", "(/ 7 0)", "(\"f\" 1)"])).to_string(), "failing-runtime"),
         8 => ((*rng.pick(&["(define)", "(if)", "(lambda)", "(let ((x)) x)", ")", "(+ 1 2) )"])).to_string(), "failing-syntax"),
+        9 if rng.chance(1, 3) => {
+            // a macro defined in the session, to be used by later submissions
+            let n = rng.range(1, 3);
+            if rng.chance(1, 2) {
+                (format!("(define-syntax inc{n} (syntax-rules () ((inc{n} x) (+ x {n}))))", n = n), "macro-definition")
+            } else {
+                (format!("(inc{} {})", n, rng.range(0, 9)), "macro-use")
+            }
+        }
         9 if rng.chance(1, 2) => (
             (*rng.pick(&["'()", "(< 2 1)", "\"a string\"", "#\\a", "(vector)", "(cdr '(1))", "(vector 1 (vector 2) '(3))", "'sym"])).to_string(),
             "value-kinds",
